@@ -1539,7 +1539,7 @@ def make_builtins(I):
         "type": b_type, "str": lambda x="": "<str>" if not isinstance(x, str) else x, "repr": lambda x: "<repr>",
         "callable": lambda x: isinstance(x, (FuncVal, ClassVal, Builtin, PartialVal, ExternalVal)),
         "issubclass": lambda a, b: I.repo.is_subclass(a.ci, b.ci) if isinstance(a, ClassVal) and isinstance(b, ClassVal) else (
-            (a.dotted, b.dotted) in {("numpy.float64", "numpy.floating"), ("numpy.int64", "numpy.integer"), ("numpy.complex128", "numpy.complexfloating")}
+            (a.dotted, b.dotted) in {("numpy.float64", "numpy.floating"), ("numpy.float32", "numpy.floating"), ("numpy.int64", "numpy.integer"), ("numpy.complex128", "numpy.complexfloating")}
             if isinstance(a, ExternalVal) and isinstance(b, ExternalVal) else False),
         "map": lambda f, *xs: [I.call(f, list(a), {}) for a in zip(*[iterate(I, x) for x in xs])],
         "hash": lambda o: id(o), "complex": lambda *a: complex(*a), "slice": lambda *a: slice(*a),
